@@ -516,11 +516,26 @@ theorem stripMetric_noPanic (parsed : Str) : NoPanic (stripMetric parsed) := by
 
 /-- `setTransRef`: `strings.Repeat("$REF ", len(nl)-1)` cannot get a negative count when the text
 behind `cmdPart` contains a character that is not white space. -/
-theorem transRefs_noPanic (names : Str) (h : fields names ≠ []) : NoPanic (transRefs names) := by
+theorem transRefs_noPanic (orig names : Str) (h : fields names ≠ []) : NoPanic (transRefs true orig names) := by
   unfold transRefs
   split
   · rename_i hf; exact absurd hf h
-  · exact noPanic_ok _
+  · split
+    · exact noPanic_diag _
+    · exact noPanic_ok _
+
+/-- after the fix at most 11 names are stored in `c.ref` (as many as `c.typ.ref` has entries). -/
+theorem transRefs_le11 (orig names : Str) (r : List Str × Str) (h : transRefs true orig names = .ok r) :
+    r.1.length ≤ 11 := by
+  unfold transRefs at h
+  split at h
+  · cases h
+  · split at h
+    · cases h
+    · rename_i hn
+      cases h
+      simp only [true_and, Nat.not_lt] at hn
+      exact hn
 
 /-- `dstOfRoute` after the fix: no Go panic for ANY command text. -/
 theorem dstOfRoute_noPanic (isV6 : Bool) (orig parsed : Str) : NoPanic (dstOfRoute true isV6 orig parsed) := by
